@@ -55,7 +55,7 @@ NS = ('xmlns:office="urn:oasis:names:tc:opendocument:xmlns:office:1.0" '
 ALPHABET = ["a", "b", "Z", "0", " ", " ", "\t", "\n", "<", "&", '"', ">", "'", "ä", "€", "\U0001d11e"]
 
 # ------------------------------------------------------------------ the harness's own tree + serialiser
-# inline nodes: ["t", text] | ["s", count_attr or None] | ["tab"] | ["br"] | ["span", [inline...]]
+# inline nodes: ["t", text] | ["s", count_attr or None] | ["tab"] | ["br"] | ["span", [inline...]] | ["mark"] (empty element)
 
 
 def esc(t, attr=False):
@@ -75,6 +75,8 @@ def xml_inl(n):
         return "<text:tab/>"
     if k == "br":
         return "<text:line-break/>"
+    if k == "mark":
+        return '<text:bookmark text:name="b1"/>'
     return '<text:span text:style-name="T1">' + "".join(xml_inl(x) for x in n[1]) + "</text:span>"
 
 
@@ -83,6 +85,9 @@ def xml_cell(c):
     if c["paras"]:
         a += ' office:value-type="string"'
     body = "".join("<text:p>" + "".join(xml_inl(n) for n in p) + "</text:p>" for p in c["paras"])
+    if c.get("note"):
+        # a cell comment as office suites store it: its paragraphs are no part of the cell's text
+        body = "<office:annotation><text:p>%s</text:p><text:p>second line</text:p></office:annotation>" % esc(c["note"]) + body
     return "<table:table-cell%s>%s</table:table-cell>" % (a, body) if body else "<table:table-cell%s/>" % a
 
 
@@ -112,6 +117,8 @@ def coq_inl(n):
         return "ITab"
     if k == "br":
         return "IBreak"
+    if k == "mark":
+        return "(ISpan [])"         # an element without content, like an empty span
     return "(ISpan %s)" % L(n[1], coq_inl)
 
 
@@ -171,6 +178,15 @@ def enc_line(rnd, line):
             a = rnd.randrange(len(nodes))
             b = rnd.randrange(a, len(nodes)) + 1
             nodes = nodes[:a] + [["span", nodes[a:b]]] + nodes[b:]
+    # elements without any content (an empty span, a bookmark) anywhere between the others: they add nothing
+    if rnd.random() < 0.3:
+        for _ in range(rnd.randint(1, 2)):
+            target = nodes
+            if rnd.random() < 0.4:
+                spans = [n for n in nodes if n[0] == "span"]
+                if spans:
+                    target = rnd.choice(spans)[1]
+            target.insert(rnd.randint(0, len(target)), rnd.choice([["span", []], ["mark"]]))
     return nodes
 
 
@@ -203,6 +219,9 @@ def enc_table(rnd, table):
     rows = []
     for row, n in enc_runs(rnd, [tuple(r) for r in table], 0.8):
         cells = [{"rep": rep_attr(rnd, k), "paras": enc_cell_text(rnd, v)} for v, k in enc_runs(rnd, list(row), 0.8)]
+        for c in cells:
+            if rnd.random() < 0.08:
+                c["note"] = rnd.choice(["a comment", "x", "1", "check <this>"])
         rows.append({"rep": rep_attr(rnd, n), "cells": cells})
     return rows
 
